@@ -35,3 +35,15 @@ pub assume_specification<T, F: FnOnce(T) -> bool>[ Option::<T>::is_some_and ](o:
     ensures
         o is None ==> !r,
         o matches Some(x) ==> f.ensures((x,), r);
+
+pub assume_specification<T, P: FnOnce(&T) -> bool>[ Option::<T>::filter ](o: Option<T>, p: P) -> (r: Option<T>)
+    requires o matches Some(x) ==> p.requires((&x,)),
+    ensures
+        o is None ==> r is None,
+        o matches Some(x) ==> (exists|b: bool| p.ensures((&x,), b) && r == (if b { Option::Some(x) } else { Option::None }));
+
+pub assume_specification<T, E, F: FnOnce(E) -> T>[ Result::<T, E>::unwrap_or_else ](res: Result<T, E>, f: F) -> (r: T)
+    requires res matches Err(e) ==> f.requires((e,)),
+    ensures
+        res matches Ok(v) ==> r == v,
+        res matches Err(e) ==> f.ensures((e,), r);
